@@ -2291,7 +2291,10 @@ def glom(target, spec, **kwargs):
         if isinstance(e, GlomError):
             # need to change id or else py3 seems to not let us truncate the
             # stack trace with the explicit "raise err" below
-            err = copy.copy(e)
+            try:
+                err = copy.copy(e)
+            except Exception:  # e.g. a subclass whose __init__ does not take *args
+                err = e
             err._set_wrapped(e)
         else:
             err = GlomError.wrap(e)
